@@ -102,6 +102,14 @@ def havoc_reachable(interp, vals, env):
         havoc_lvalue(interp, path, env, tag="m")
 
 
+def _returns_value(fn):
+    from .symex import _walk_own
+    for n in _walk_own(fn):
+        if isinstance(n, ast.Return) and n.value is not None and not (isinstance(n.value, ast.Constant) and n.value.value is None):
+            return True
+    return False
+
+
 def apply_contract(interp, c, fv, args, kwargs, node):
     ctx = interp.ctx
     if interp.spec:
@@ -163,6 +171,10 @@ def apply_contract(interp, c, fv, args, kwargs, node):
     # bind_params / names may have been rebound by havoc of plain names: not visible to caller (python semantics)
     if d == 0:
         result = NONE
+        if c.returns is None and c.returns_expr is None and fv is not None and _returns_value(fv.node):
+            # (guard against a silent vacuity: the call would evaluate to None on every path)
+            raise Unsupported(f"{c.key}: used at a call site, but its contract declares no `returns` shape "
+                              f"although the function returns a value")
         if c.returns_expr is not None:
             result = spec.eval(c.returns_expr, env)
         elif c.returns and c.returns != "none":
